@@ -9,6 +9,7 @@ pub mod c06;
 pub mod c07;
 pub mod c08;
 pub mod c09;
+pub mod c10;
 pub mod c11;
 pub mod c12;
 pub mod c13;
@@ -42,6 +43,7 @@ pub fn registry() -> &'static [Check] {
         Check { meta: &c07::META, run: c07::run, shards: (16, 16) },
         Check { meta: &c08::META, run: c08::run, shards: (16, 16) },
         Check { meta: &c09::META, run: c09::run, shards: (16, 16) },
+        Check { meta: &c10::META, run: c10::run, shards: (8, 16) },
         Check { meta: &c11::META, run: c11::run, shards: (16, 16) },
         Check { meta: &c12::META, run: c12::run, shards: (16, 16) },
         Check { meta: &c13::META13, run: c13::run13, shards: (16, 16) },
